@@ -101,3 +101,111 @@ Qed.
 Example written_terms : create_symbol (TFun "p" [TFun "-" [TNum 1]; TFun "-" [TFun "f" [TSym """a"""]]; TTup [TNum 1; TSym "#sup"]; TFun "-" [TNum 3; TNum 1]])
   = Some (YFun "p" [YNum (-1); YFun "f" [YStr "a"] false; YFun "" [YNum 1; YSup] true; YNum 2] true).
 Proof. reflexivity. Qed.
+(* ---- head and body read the arguments of an atom alike ---- *)
+Definition name_ok (name : string) : bool := plain name && negb (in_head_table name) && negb (String.eqb name "").
+Fixpoint wfw (w : wterm) : bool :=
+  match w with
+  | WNum n => (0 <=? n)%Z
+  | WConst c => name_ok c
+  | WFun name args => name_ok name && negb (match args with [] => true | _ => false end) && forallb wfw args
+  | WTup args => forallb wfw args
+  | WNeg a => wfw a
+  | WBin _ l r => wfw l && wfw r
+  | _ => true
+  end.
+Fixpoint wterm_ind' (P : wterm -> Prop) (hn : forall n, P (WNum n)) (hs : forall s, P (WStr s)) (hc : forall c, P (WConst c)) (hi : P WInf) (hp : P WSup)
+  (hf : forall name args, Forall P args -> P (WFun name args)) (ht : forall args, Forall P args -> P (WTup args))
+  (hg : forall a, P a -> P (WNeg a)) (hb : forall pm l r, P l -> P r -> P (WBin pm l r)) (w : wterm) : P w :=
+  let go := fix go (l : list wterm) : Forall P l := match l with [] => Forall_nil P | x :: r => Forall_cons x (wterm_ind' P hn hs hc hi hp hf ht hg hb x) (go r) end in
+  match w with
+  | WNum n => hn n | WStr s => hs s | WConst c => hc c | WInf => hi | WSup => hp
+  | WFun name args => hf name args (go args) | WTup args => ht args (go args)
+  | WNeg a => hg a (wterm_ind' P hn hs hc hi hp hf ht hg hb a) | WBin pm l r => hb pm l r (wterm_ind' P hn hs hc hi hp hf ht hg hb l) (wterm_ind' P hn hs hc hi hp hf ht hg hb r)
+  end.
+Definition head_value (sg : string -> sym) (w : wterm) : option sym := obind (to_term (in_head w)) (eval sg).
+Definition as_num (o : option sym) : option Z := match o with Some (YNum n) => Some n | _ => None end.
+Definition negated (o : option sym) : option sym := match o with Some (YNum n) => Some (YNum (- n)) | Some (YFun f l p) => Some (YFun f l (negb p)) | _ => None end.
+Lemma all_some_cons {X} (a : option X) l : all_some (a :: l) = match a, all_some l with Some x, Some xs => Some (x :: xs) | _, _ => None end.
+Proof. reflexivity. Qed.
+Lemma all_some_bind {X Y Z} (f : X -> option Y) (g : Y -> option Z) l :
+  all_some (map (fun x => obind (f x) g) l) = obind (all_some (map f l)) (fun ys => all_some (map g ys)).
+Proof.
+  induction l as [|a r IH]; [reflexivity|]. cbn [map]. rewrite !all_some_cons, IH. destruct (f a) as [y|]; cbn [obind]; [|reflexivity].
+  destruct (all_some (map f r)) as [ys|]; cbn [obind map]; [now rewrite all_some_cons|]. now destruct (g y).
+Qed.
+Lemma all_some_ext {X Y} (f g : X -> option Y) l : Forall (fun x => f x = g x) l -> all_some (map f l) = all_some (map g l).
+Proof. induction 1 as [|x r E _ IH]; [reflexivity|]. cbn [map]. now rewrite !all_some_cons, E, IH. Qed.
+Lemma leaf_number n : (0 <= n)%Z -> num_leaf_gen n = Some n.
+Proof. intros H. unfold num_leaf_gen, olift2. destruct (n >=? 0)%Z eqn:E; [reflexivity|]. rewrite Z.geb_leb in E. apply Z.leb_gt in E. lia. Qed.
+Lemma plus_minus_arithmetic (pm : bool) : mem (if pm then "+" else "-") arithmetic_operators_gen = true.  Proof. destruct pm; reflexivity. Qed.
+Lemma name_ok_parts name : name_ok name = true -> plain name = true /\ in_head_table name = false /\ String.eqb name "" = false.
+Proof. unfold name_ok. rewrite !andb_true_iff, !negb_true_iff. tauto. Qed.
+Lemma eval_anum sg r n : anum r = Some n -> eval sg r = Some (YNum n).
+Proof. destruct r as [[z|x|f l p| |]|x|f l|a|p l r]; cbn; intros E; try discriminate. now injection E as ->. Qed.
+Lemma anum_eval (r : aterm) : anum r = None -> forall n, r <> ASym (YNum n).
+Proof. intros E n ->. discriminate. Qed.
+Lemma eval_bin sg (pm : bool) L R : eval sg (ABin pm L R) = match eval sg L, eval sg R with Some (YNum x), Some (YNum y) => Some (YNum (if pm then x + y else x - y)%Z) | _, _ => None end.
+Proof. reflexivity. Qed.
+Lemma map_map_eval sg hs : all_some (map (fun h => obind (to_term h) (eval sg)) hs) = obind (all_some (map to_term hs)) (fun l => all_some (map (eval sg) l)).
+Proof. apply all_some_bind. Qed.
+Theorem head_and_body_read_arguments_alike sg : forall w, wfw w = true ->
+  create_symbol (in_body w) = head_value sg w /\ create_number (in_body w) = as_num (create_symbol (in_body w)).
+Proof.
+  induction w as [n|s|c| | |name args IH|args IH|a IH|pm l r IHl IHr] using wterm_ind'; intros W; unfold head_value.
+  - cbn in W. apply Z.leb_le in W. cbn [in_body in_head to_term obind eval create_symbol create_number as_num]. split; [reflexivity|now apply leaf_number].
+  - cbn [in_body in_head to_term obind eval]. change (create_symbol (TSym (quote s))) with (create_symbol (encode (YStr s))).
+    rewrite create_symbol_undoes_the_encoding by reflexivity. split; reflexivity.
+  - cbn [wfw] in W. destruct (name_ok_parts c W) as [Pl [_ _]]. destruct (plain_parts c Pl) as [O [_ [I1 [I2 Q]]]].
+    cbn [in_body in_head to_term obind eval]. rewrite cs_sym, O, I1, I2, Q. split; reflexivity.
+  - split; reflexivity.
+  - split; reflexivity.
+  - cbn [wfw] in W. apply andb_true_iff in W as [W Wa]. apply andb_true_iff in W as [Nm Ne].
+    destruct (name_ok_parts name Nm) as [Pl [Tb En]]. destruct (plain_parts name Pl) as [O [Ar _]].
+    assert (Forall (fun x => create_symbol (in_body x) = head_value sg x) args) as Fa.
+    { rewrite forallb_forall in Wa. rewrite Forall_forall in *. intros x Hx. apply (IH x Hx), Wa, Hx. }
+    destruct args as [|a0 rest]; [discriminate Ne|].
+    assert (to_term (in_head (WFun name (a0 :: rest))) = option_map (AFun name) (all_some (map to_term (map in_head (a0 :: rest))))) as TT.
+    { cbn [in_head map to_term]. assert (String.eqb name "-" = false) as N1 by (apply String.eqb_neq; intros ->; discriminate Ar).
+      assert (String.eqb name "+" = false) as N2 by (apply String.eqb_neq; intros ->; discriminate Ar).
+      destruct rest as [|a1 [|a2 rest']]; cbn [map]; rewrite ?N1, ?N2, ?Tb; reflexivity. }
+    split.
+    + change (in_body (WFun name (a0 :: rest))) with (TFun name (in_body a0 :: map in_body rest)). rewrite (cs_fun name _ _ Ar O). rewrite TT.
+      change (in_body a0 :: map in_body rest) with (map in_body (a0 :: rest)). rewrite !map_map.
+      rewrite (all_some_ext _ _ _ Fa). unfold head_value. rewrite (all_some_bind (fun x => to_term (in_head x)) (eval sg)).
+      destruct (all_some (map (fun x => to_term (in_head x)) (a0 :: rest))) as [ys|]; reflexivity.
+    + change (in_body (WFun name (a0 :: rest))) with (TFun name (in_body a0 :: map in_body rest)). rewrite (cs_fun name _ _ Ar O).
+      assert (create_number (TFun name (in_body a0 :: map in_body rest)) = None) as ->.
+      { cbn [create_number]. assert (String.eqb name "-" = false) as N1 by (apply String.eqb_neq; intros ->; discriminate Ar).
+        destruct (map in_body rest) as [|b [|b2 r2]]; rewrite ?N1, ?Ar; reflexivity. }
+      now destruct (all_some (map create_symbol (in_body a0 :: map in_body rest))).
+  - cbn [wfw] in W.
+    assert (Forall (fun x => create_symbol (in_body x) = head_value sg x) args) as Fa.
+    { rewrite forallb_forall in W. rewrite Forall_forall in *. intros x Hx. apply (IH x Hx), W, Hx. }
+    cbn [in_body in_head to_term]. rewrite cs_tup, !map_map, (all_some_ext _ _ _ Fa). unfold head_value. rewrite (all_some_bind (fun x => to_term (in_head x)) (eval sg)).
+    split; [destruct (all_some (map (fun x => to_term (in_head x)) args)) as [ys|]; reflexivity|].
+    cbn [create_number]. now destruct (obind (all_some (map (fun x => to_term (in_head x)) args)) (fun ys => all_some (map (eval sg) ys))).
+  - cbn [wfw] in W. destruct (IH W) as [E N]. cbn [in_body in_head]. rewrite cs_neg. fold (negated (create_symbol (in_body a))). split.
+    + rewrite E. unfold head_value. cbn [to_term]. rewrite String.eqb_refl. destruct (to_term (in_head a)) as [r0|]; cbn [option_map obind]; [|reflexivity].
+      destruct (anum r0) as [n|] eqn:An; [rewrite (eval_anum sg r0 n An); reflexivity|]. reflexivity.
+    + cbn [create_number]. rewrite String.eqb_refl, N. destruct (create_symbol (in_body a)) as [[z|x|f l0 p| |]|]; reflexivity.
+  - cbn [wfw] in W. apply andb_true_iff in W as [Wl Wr]. destruct (IHl Wl) as [El Nl]. destruct (IHr Wr) as [Er Nr].
+    assert (create_symbol (in_body (WBin pm l r)) = option_map YNum (create_number (in_body (WBin pm l r)))) as CS.
+    { cbn [in_body create_symbol]. now rewrite plus_minus_arithmetic. }
+    assert (create_number (in_body (WBin pm l r)) = match as_num (create_symbol (in_body l)), as_num (create_symbol (in_body r)) with Some x, Some y => Some (if pm then x + y else x - y)%Z | _, _ => None end) as CN.
+    { cbn [in_body create_number]. rewrite plus_minus_arithmetic, Nl, Nr. destruct (as_num (create_symbol (in_body l))) as [x|]; cbn [obind]; [|reflexivity].
+      destruct (as_num (create_symbol (in_body r))) as [y|]; cbn [obind]; [|reflexivity]. destruct pm; reflexivity. }
+    split.
+    + rewrite CS, CN, El, Er. unfold head_value. cbn [in_head to_term].
+      assert (String.eqb (if pm then "+" else "-") "+" || String.eqb (if pm then "+" else "-") "-" = true) as -> by (destruct pm; reflexivity).
+      assert (String.eqb (if pm then "+" else "-") "+" = pm) as -> by (destruct pm; reflexivity).
+      destruct (to_term (in_head l)) as [L|]; cbn [obind as_num]; [|reflexivity].
+      destruct (to_term (in_head r)) as [R|]; cbn [obind as_num].
+      * destruct (anum L) as [x|] eqn:AL.
+        -- rewrite (eval_anum sg L x AL). cbn [as_num]. destruct (anum R) as [y|] eqn:AR.
+           ++ rewrite (eval_anum sg R y AR). reflexivity.
+           ++ cbn [obind]. rewrite eval_bin, (eval_anum sg L x AL). destruct (eval sg R) as [[y|s0|f l0 p| |]|]; reflexivity.
+        -- cbn [obind]. rewrite eval_bin. destruct (eval sg L) as [[x|s0|f l0 p| |]|]; cbn [as_num option_map]; try reflexivity.
+           destruct (eval sg R) as [[y|s0|f l0 p| |]|]; reflexivity.
+      * now destruct (as_num (eval sg L)).
+    + rewrite CS. now destruct (create_number (in_body (WBin pm l r))).
+Qed.
